@@ -29,6 +29,10 @@ def plan(tier, seed):
     for spec in knets + u2:
         units.append(("full", [spec], d, tier))
     unis[f"K(n<=4) + {'U2c' if tier == 'quick' else 'U2'}(|SD|>=2): full alphabet depth {d} + query.structural.query"] = len(knets) + len(u2)
+    s3 = [("k", k) for k, n in K.items() if 2 <= len(n.sd[0])] + [x for x in u2 if c04.sd_size(x) >= 3]
+    for spec in s3:
+        units.append(("shaped3", [spec], 3, tier))
+    unis["K + U2(|SD|>=3): [query].[reclaim|pickle].[structural] and [succ/bfs-level].[query any node].[non-plain structural]"] = len(s3)
     big = [("k", k) for k, n in K.items() if n.n > 4]
     for spec in big:
         units.append(("full", [spec], 1 if tier == "quick" else 2, tier))
@@ -177,6 +181,58 @@ def explore_shaped(net, spec, depth, res):
     return vio
 
 
+NONPLAIN = {"skip", "skiprem", "scc", "build"}
+
+
+def explore_shaped3(net, spec, res):
+    """length-3 histories of two shapes that depth 2 cannot reach:
+    (i)  query . (reclaim | pickle) . structural        (data dropped between the query and the expansion)
+    (ii) (succ 0 | bfs level 0/1) . query on any node . non-plain structural op (skip, block with sources, scc, build, minimal+skip)"""
+    vio = []
+    seen = set()
+
+    def step(h, op):
+        sd = replay_hist(net, h, CONFIG)
+        res["transitions"] += 1
+        res["evals"] += 1
+        try:
+            sd, _ = apply(sd, op)
+        except Exception:
+            count(res, "ops_that_raised")
+            return None
+        for o, d in invariant(net, sd, h + (op,), op, None):
+            vio.append(V(o, {"net": list(spec), "history": [list(x) for x in h + (op,)]}, f"{net!r}: after {h + (op,)}: {d}", site=op[0]))
+        k = dump(net, sd)
+        if k not in seen:
+            seen.add(k)
+            if nontrivial_state(net, sd):
+                res["nontrivial"].add((repr(spec), hash(k)))
+        return sd
+
+    sd0 = new_sd(net, CONFIG)
+    for q in query_ops(net, sd0):
+        for mid in (("reclaim",), ("pickle",)):
+            h = (q, mid)
+            base = replay_hist(net, h, CONFIG)
+            for op in full_ops(net, base):
+                if op[0] in STRUCT:
+                    step(h, op)
+    for first in (("succ", 0), ("bfs", 0, 1, None)):
+        b1 = replay_hist(net, (first,), CONFIG)
+        for q in query_ops(net, b1):
+            if q[0] == "cand" and q[2:] in ((True, False), (False, True)):
+                continue
+            h = (first, q)
+            base = replay_hist(net, h, CONFIG)
+            for op in full_ops(net, base):
+                nonplain = op[0] in NONPLAIN or (op[0] == "min" and op[3]) or (op[0] == "block" and op[3])
+                if nonplain or (op[0] == "succ"):
+                    step(h, op)
+    res["states"] += len(seen)
+    res["traces"] = res["evals"]
+    return vio
+
+
 def run_unit(unit):
     kind, specs, depth, tier = unit
     res = new_result()
@@ -184,7 +240,8 @@ def run_unit(unit):
         net = U.resolve(spec)
         try:
             with case_timeout(2400):
-                vio = explore_full(net, spec, depth, res) if kind == "full" else explore_shaped(net, spec, depth, res)
+                vio = explore_full(net, spec, depth, res) if kind == "full" else (
+                    explore_shaped3(net, spec, res) if kind == "shaped3" else explore_shaped(net, spec, depth, res))
         except CaseTimeout:
             res["hangs"].append({"case": {"net": list(spec)}, "why": "exceeded time cap"})
             res["caps"].append({"net": list(spec), "cap": "time"})
